@@ -6,7 +6,7 @@ NOT_APPLICABLE = {
     "C16": "The token-tiling invariant is a pure function of the input string observed on a deterministic token stream; no state, schedule or fault is involved.",
 }
 PENDING = {p: "not claimed yet: the simulated scenario for this property is designed (DESIGN.md section 5) but its check is still being built" for p in
-           ["C01", "C02", "C03", "C05", "C08", "C09", "C10", "C12", "C13", "C14", "C17", "C19", "C20"]}
+           ["C03", "C05", "C08", "C10", "C12", "C13", "C17", "C19", "C20"]}
 
 TEXT = {
     "C04": {
@@ -20,5 +20,29 @@ TEXT = {
         "design_ref": "DESIGN.md section 5 C18, section 3.3",
         "level_text": "Fault enumeration inside seeded schedules: for every list of size <= 6 every position of one faulty entry x every fault kind (never-existing path, dangling link, ENOENT/EACCES/EMFILE/EIO at open, EIO mid-read, file unlinked by the simulator at every scheduler step of the dry-run trace in the thorough tier) plus random larger lists (to 4*NumCPU and one 10^4 list) with up to two faults; the scheduler detects deadlock (nothing runnable before return), leaked goroutines (blocked at bubble end) and livelock (step budget) by construction; a panic in a worker goroutine kills the worker process and is attributed through the case journal.",
         "level_note": "Trusted: synctest's durable-blocking detection; Linux unlink-after-open semantics; data races are only looked for by the race-detector side mode under the real scheduler (a serialising scheduler hides them).",
+    },
+    "C01": {
+        "technique": "deterministic simulation: seeded operation histories against the real CLI in-process, reference model last[T] as oracle",
+        "design_ref": "DESIGN.md section 5 C01, section 4",
+        "level_text": "Seeded exploration of histories: each run generates a spokfile of 1-3 tasks and 4-14 operations (edit/revert/delete files, runs of task subsets with flags, command failures, cache removal); every invocation is the real CLI (flag parsing, app, file, task, cache, hash, mvdan/sh, parser) inside a synctest bubble with a seeded hash schedule and a seeded dag iteration order; after every invocation each reported skip is checked against the model (inputs == inputs of the last success, cache not removed since). Sampling, not enumeration.",
+        "level_note": "Trusted: the side-effect log written by the generated commands is the ground truth for what ran; the reference glob matcher; tmpfs. Commands never modify inputs.",
+    },
+    "C02": {
+        "technique": "deterministic simulation: same histories, converse direction of the reference model (bounded liveness once faults stop)",
+        "design_ref": "DESIGN.md section 5 C02",
+        "level_text": "Same simulated histories as C01 in the crash-free configuration; whenever the model says a task last succeeded on exactly the current inputs (>= 1 regular file, no --force, cache not removed) none of its commands may run and it must be reported skipped, whatever the other tasks of the run do; tasks without file dependencies must always run. Sampling, not enumeration.",
+        "level_note": "Trusted: as C01. Where the specification is silent (dependencies that match no regular file) either outcome is accepted and counted.",
+    },
+    "C09": {
+        "technique": "deterministic simulation: command exit statuses injected through control scripts at any position of seeded histories",
+        "design_ref": "DESIGN.md section 5 C09",
+        "level_text": "Seeded histories over 1-4 tasks x 1-2 commands where control scripts make any command exit with a status from {1,2,127,128,255} or random 1..255, in requested tasks and dependencies, under plain/--quiet/--json/--force, followed by further runs: the invocation must fail, the error must name a task that really executed a failing command, and a task whose latest execution failed is never reported skipped unless the model allows it.",
+        "level_note": "Trusted: in-process invocation: 'exits non-zero' is observed as Execute() returning an error, which main.go maps to exit status 1 (6 lines not executed in-process).",
+    },
+    "C14": {
+        "technique": "deterministic simulation: --force drawn at any position of seeded histories, reference model as oracle",
+        "design_ref": "DESIGN.md section 5 C14",
+        "level_text": "Same simulated histories with --force four times as frequent, including first runs, runs after failures and after cache removal: in a successful forced invocation every closure task must have executed all its commands and none may be reported skipped; afterwards every reported skip must still be legal with last[] updated by forced successes too.",
+        "level_note": "Trusted: as C01.",
     },
 }
